@@ -17,5 +17,7 @@ for k in ks:
     checks = sorted({p["id"] for p in props for f in files if f in p["anchors"]["files"]} | ({notes.get("near")} if notes.get("near") else set()))
     summary = (notes.get("summary", "") + (" [behaviour visible]" if notes.get("behaviour_visible") else ""))[:400]
     r = subprocess.run(["/venv/bin/python", "/verif/tools/benign_ingest.py", "%s-%s" % (prefix, k), patch, "--near", notes.get("near", ""), "--summary", summary, "--checks", ",".join(checks), "--jobs", "3"], capture_output=True, text=True)
+    if "REJECT: patch does not apply" in r.stdout:
+        r = subprocess.run(["/venv/bin/python", "/verif/tools/benign_ingest.py", "%s-%s" % (prefix, k), patch, "--near", notes.get("near", ""), "--summary", summary, "--checks", ",".join(checks), "--jobs", "3", "--base", "173aeca"], capture_output=True, text=True)
     lines = [l for l in r.stdout.splitlines() if l.startswith(("FILED", "REJECT", "  C"))]
     print(prefix, k, checks, " | ".join(lines) or (r.stdout + r.stderr)[-300:], flush=True)
